@@ -369,8 +369,9 @@ func s2Start(c *vcore.Ctx, g *s2cfg, plan s2plan, starts int) []*s2Launch {
 	cur.final = true
 	k.finishLaunch(cur, r, before, beforeFilesBacking, par)
 	out = append(out, cur)
+	s2LastTrace = k.renderTrace()
 	for _, l := range out {
-		l.trace = k.renderTrace()
+		l.trace = s2LastTrace
 		l.ktrace = k.trace
 		l.nSys = k.sysIdx
 		l.deadlock = k.deadlock
